@@ -7,6 +7,7 @@ import (
 	"fmt"
 	"hash/fnv"
 	"math"
+	"runtime"
 	"strconv"
 
 	"gorgonia.org/tensor"
@@ -158,7 +159,11 @@ func ToG(t *ref.T) tensor.Tensor {
 			return tensor.New(tensor.FromScalar(s[0]))
 		}
 	}
-	return tensor.New(tensor.WithShape(t.Shape...), tensor.WithBacking(b))
+	g := tensor.New(tensor.WithShape(t.Shape...), tensor.WithBacking(b))
+	// gorgonia v0.9.24 derives the tensor's storage from the slice through a uintptr (storage.AsByteSlice): without
+	// another live reference the slice can be collected inside that window. Keep the harness's own tensors safe.
+	runtime.KeepAlive(b)
+	return g
 }
 
 func ToGs(ts []*ref.T) []tensor.Tensor {
@@ -354,7 +359,9 @@ func fromG(t tensor.Tensor) (*ref.T, error) {
 	out := &ref.T{DT: dt, Shape: shape}
 	d, isDense := t.(*tensor.Dense)
 	if isDense && !d.RequiresIterator() && !d.IsMaterializable() {
-		if bits, ok := rawBits(d.Data()); ok && len(bits) == n {
+		bits, ok := rawBits(d.Data())
+		runtime.KeepAlive(d) // Data() goes through a uintptr (see ToG)
+		if ok && len(bits) == n {
 			out.V = bits
 			return out, nil
 		}
@@ -366,6 +373,7 @@ func fromG(t tensor.Tensor) (*ref.T, error) {
 		if err != nil {
 			// scalar Data()
 			b, ok := elemBits(t.Data())
+			runtime.KeepAlive(t)
 			if !ok {
 				return nil, fmt.Errorf("cannot read scalar: %v", err)
 			}
@@ -411,6 +419,7 @@ func Snapshot(t tensor.Tensor) Snap {
 		s.Flags += fmt.Sprintf(" v=%v m=%v", d.IsView(), d.IsMaterializable())
 	}
 	raw, _ := rawBits(t.Data())
+	runtime.KeepAlive(t) // Data() goes through a uintptr (see ToG)
 	s.Raw = raw
 	return s
 }
